@@ -250,8 +250,8 @@ macro_rules! impl_policy {
             /// the observer must not hang on a policy mutex that the code under test never releases
             fn verif_lock(&self) -> parking_lot::MutexGuard<'_, PolicyInner<S>> {
                 self.inner
-                    .try_lock_for(std::time::Duration::from_secs(10))
-                    .expect("verif: the policy mutex was not released within 10 s")
+                    .try_lock_for(std::time::Duration::from_secs(3))
+                    .expect("verif: the policy mutex was not released within 3 s")
             }
         }
 
